@@ -141,16 +141,15 @@ class _Gate:
 _TRACE_CACHE = {}
 
 
-def _make_tracer(prefixes):
-    """sys.settrace function: a scheduling point before every line executed in files under prefixes."""
+def _make_tracer(prefixes, ex, tid):
+    """sys.settrace function for harness thread ``tid`` of execution ``ex``: a scheduling point before
+    every line executed in files whose path starts with one of ``prefixes``."""
     cache = _TRACE_CACHE.setdefault(prefixes, {})
+    point_ = ex._point
 
     def local_trace(frame, event, arg):
         if event == 'line':
-            ex = getattr(_tl, 'ex', None)
-            if ex is not None:
-                co = frame.f_code
-                ex._point(_tl.tid, ('line', cache[co], frame.f_lineno))
+            point_(tid, ('line', cache[frame.f_code], frame.f_lineno) if ex.tags is not None else None)
         return local_trace
 
     def global_trace(frame, event, arg):
@@ -195,7 +194,8 @@ class Execution:
         self.expect = expect
         self.expect_upto = 0 if expect is None else (expect[2] if len(expect) > 2 else len(expect[0]))
         self.timeout = timeout
-        self.tracer = _make_tracer(tuple(trace_files)) if trace_files else None
+        self.trace_files = tuple(trace_files) if trace_files else None
+        self.nrunnable = n
         self.state = [RUNNABLE] * n
         self.blocked_on = [None] * n
         self.sems = [_Gate() for _ in range(n)]
@@ -210,25 +210,29 @@ class Execution:
 
     # -- decisions (always executed by the baton holder, or by the driver before the start) -------
     def _decide(self, running):
-        enabled = [t for t in range(self.n) if self.state[t] == RUNNABLE]
-        if not enabled:
+        nrun = self.nrunnable
+        if nrun == 0:
             return None
         pre = running is not None and self.state[running] == RUNNABLE
-        order = [running] + [t for t in enabled if t != running] if pre else enabled
         k = len(self.trace)
         c = self.choices.get(k, 0)
-        if c >= len(order):
-            raise HarnessError(f'choice {c} at decision {k} is out of range: enabled threads {order} '
-                               f'(the schedule does not belong to this program, or the program is not deterministic)')
-        t = order[c]
+        if c == 0 and pre:
+            t = running                     # no preemption: the running thread is first in canonical order
+        else:
+            enabled = [t for t in range(self.n) if self.state[t] == RUNNABLE]
+            order = [running] + [t for t in enabled if t != running] if pre else enabled
+            if c >= nrun:
+                raise HarnessError(f'choice {c} at decision {k} is out of range: enabled threads {order} '
+                                   f'(the schedule does not belong to this program, or the program is not deterministic)')
+            t = order[c]
         if k < self.expect_upto:
-            if self.expect[0][k] != t or self.expect[1][k] != len(order):
-                raise HarnessError(f'execution diverged at decision {k}: thread {t} of {len(order)} enabled, the recorded '
+            if self.expect[0][k] != t or self.expect[1][k] != nrun:
+                raise HarnessError(f'execution diverged at decision {k}: thread {t} of {nrun} enabled, the recorded '
                                    f'execution had thread {self.expect[0][k]} of {self.expect[1][k]} (nondeterminism '
                                    f'not captured by the harness)')
         self.trace.append(t)
         self.picks.append(c)
-        self.branch.append(len(order))
+        self.branch.append(nrun)
         self.preemptive.append(pre)
         return t
 
@@ -265,6 +269,7 @@ class Execution:
 
     def _block(self, t, obj):
         self.state[t] = BLOCKED
+        self.nrunnable -= 1
         self.blocked_on[t] = obj
         try:
             nxt = self._decide(None)
@@ -280,6 +285,7 @@ class Execution:
         for t in range(self.n):
             if self.state[t] == BLOCKED and self.blocked_on[t] is obj:
                 self.state[t] = RUNNABLE
+                self.nrunnable += 1
                 self.blocked_on[t] = None
 
     def _deadlock(self):
@@ -288,6 +294,7 @@ class Execution:
 
     def _finish(self, t):
         self.state[t] = DONE
+        self.nrunnable -= 1
         if self.aborted:
             return
         try:
@@ -309,12 +316,12 @@ class Execution:
             if self.aborted:
                 return
             try:
-                if self.tracer is not None:
-                    sys.settrace(self.tracer)
+                if self.trace_files is not None:
+                    sys.settrace(_make_tracer(self.trace_files, self, i))
                 try:
                     res = self.bodies[i]()
                 finally:
-                    if self.tracer is not None:
+                    if self.trace_files is not None:
                         sys.settrace(None)
             except _Abort:
                 return
@@ -420,20 +427,27 @@ def explore(factory, visit, *, preemption_bound=None, horizon=None, max_schedule
     """Depth-first exploration of all schedules of ``factory()`` (a fresh list of thread bodies per
     execution) within the preemption budget; ``visit(outcome)`` is called for every execution.
 
-    ``shard=(i, n)`` partitions the schedule tree: the children of the root execution are dealt round
-    robin to the n shards (shard 0 also owns the root); the union over the shards is the whole tree and
-    the shards are disjoint.  ``max_schedules`` caps the executions of *this* shard."""
+    ``shard=(i, n)`` partitions the schedule tree deterministically.  *Structural* executions -- those
+    whose choices are all free switches (who starts, who continues after a completion; there are at
+    most (number of threads)! of them) -- are executed by every shard and owned round robin; the
+    subtrees hanging off the first preemptive choice are dealt round robin to the shards.  The
+    shards are disjoint and their union is the whole tree.  ``max_schedules`` caps the executions
+    owned by *this* shard."""
     si, sn = shard
     st = Stats()
     stack = [({}, None, 0, True)]
+    structural_seen = dealt = 0
     while stack:
-        choices, expect, start, is_root = stack.pop()
+        choices, expect, start, structural = stack.pop()
         if max_schedules is not None and st.schedules >= max_schedules:
             st.capped = True
             st.unexplored = len(stack) + 1
             break
         out = Execution(factory(), choices, horizon=horizon, expect=expect, trace_files=trace_files, timeout=timeout).run()
-        mine = not is_root or si == 0
+        mine = True
+        if structural:
+            mine = structural_seen % sn == si
+            structural_seen += 1
         if mine:
             st.schedules += 1
             st.decisions += len(out.trace)
@@ -454,18 +468,21 @@ def explore(factory, visit, *, preemption_bound=None, horizon=None, max_schedule
                 cost = 1 if out.preemptive[k] else 0
                 for alt in range(1, out.branch[k]):
                     if preemption_bound is None or used + cost <= preemption_bound:
-                        children.append((k, alt))
-                    else:
+                        child_structural = structural and cost == 0
+                        if structural and not child_structural:
+                            keep = dealt % sn == si
+                            dealt += 1
+                            if not keep:
+                                continue
+                        children.append((k, alt, child_structural))
+                    elif mine:
                         st.pruned += 1
             if out.preemptive[k] and out.picks[k]:
                 used += 1
-        for idx in range(len(children) - 1, -1, -1):
-            if is_root and idx % sn != si:
-                continue
-            k, alt = children[idx]
+        for k, alt, child_structural in reversed(children):
             nc = dict(choices)
             nc[k] = alt
-            stack.append((nc, (out.trace, out.branch, k), k + 1, False))
+            stack.append((nc, (out.trace, out.branch, k), k + 1, child_structural))
     return st
 
 
@@ -507,10 +524,17 @@ def selftest():
         if len(outs) < 2:
             raise HarnessError('selftest: the lost update was not found')
         facts[f'schedules{npoints}'] = st.schedules
-    # sharding is a partition
-    tot = sum(explore(counter_factory((2, 3)), lambda o: None, shard=(i, 4)).schedules for i in range(4))
-    if tot != interleavings(3, 4):
-        raise HarnessError(f'selftest: shards explored {tot} schedules, expected {interleavings(3, 4)}')
+    # sharding is a partition (each schedule visited by exactly one shard)
+    for npoints, bound, nshards in [((2, 3), None, 4), ((2, 1, 1), 2, 5), ((3, 3), 1, 3)]:
+        whole = []
+        explore(counter_factory(npoints), lambda o: whole.append(tuple(o.picks)), preemption_bound=bound)
+        parts = []
+        for i in range(nshards):
+            explore(counter_factory(npoints), lambda o: parts.append(tuple(o.picks)), preemption_bound=bound, shard=(i, nshards))
+        if sorted(parts) != sorted(whole) or len(set(parts)) != len(parts):
+            raise HarnessError(f'selftest: {nshards} shards explored {len(parts)} schedules of {npoints}, expected a partition '
+                               f'of {len(whole)}')
+    facts['sharding'] = 'partition'
     # preemption bound: 0 preemptions on two threads = 2 schedules (who starts)
     st0 = explore(counter_factory((3, 3)), lambda o: None, preemption_bound=0)
     st1 = explore(counter_factory((3, 3)), lambda o: None, preemption_bound=1)
